@@ -879,6 +879,18 @@ private:
       {
         try { c.listenerReady->set_value(false); } catch (...) {}
       }
+      if (c.t == CmdType::Connect || c.t == CmdType::Via)
+      {
+        // connect()/connectViaListener() already returned this id to the application:
+        // it must still get its terminal event.
+        decltype(_cbs.onClose) closeCb;
+        { std::lock_guard<std::mutex> g(_cbMutex); closeCb = _cbs.onClose; }
+        if (closeCb)
+        {
+          closeCb(c.t == CmdType::Connect ? c.c.sid : c.v.sid,
+                  TransportErrorInfo{TransportError::ShuttingDown, "transport shutting down"});
+        }
+      }
     }
     if (_epollFd >= 0)
     {
